@@ -1,3 +1,4 @@
+import IsobarV.Clock.Drv
 import IsobarV.Auto.Drv
 import IsobarV.Midi.Drv
 import IsobarV.Notation.Drv
@@ -15,4 +16,5 @@ def main (args : List String) : IO UInt32 := do
   | ["notation"] => IsobarV.Notation.Drv.main; return 0
   | ["midi"] => IsobarV.Midi.Drv.main; return 0
   | ["auto"] => IsobarV.Auto.Drv.main; return 0
+  | ["clock"] => IsobarV.Clock.Drv.main; return 0
   | _ => IO.eprintln s!"usage: driver <suite>; unknown: {args}"; return 2
